@@ -2202,12 +2202,14 @@ func (err *SchemaError) Error() string {
 		buf.WriteString("\nSchema:\n  ")
 		encoder := json.NewEncoder(buf)
 		encoder.SetIndent("  ", "  ")
-		if err := encoder.Encode(err.Schema); err != nil {
-			panic(err)
+		if e := encoder.Encode(err.Schema); e != nil {
+			// Error() must not panic: fall back to Go syntax when JSON cannot represent it
+			fmt.Fprintf(buf, "%+v", err.Schema)
 		}
 		buf.WriteString("\nValue:\n  ")
-		if err := encoder.Encode(err.Value); err != nil {
-			panic(err)
+		if e := encoder.Encode(err.Value); e != nil {
+			// e.g. a NaN decoded from a YAML body
+			fmt.Fprintf(buf, "%+v", err.Value)
 		}
 	}
 
